@@ -6,6 +6,7 @@ seeded levels to a value never seen before.  The search helpers run with `get` b
 real queries through the RPC stack (transient faults below the retry cap, latency, chain
 growing while the search runs).  Oracle: the node's recorded per-level history.
 """
+import copy
 import json
 
 from simtz import core
@@ -42,7 +43,7 @@ ASSUMPTIONS = [
     'BlockSliceQuery.find_proposal_injection is excluded: it calls a non-existent OperationListListQuery.find_votes after the search returns '
     '(a defect outside this statement).',
 ]
-EXPECTED_PROBES = ['two_searches_interleaved', 'coarse_equality', 'chain_extended_between_two_searches', 'none_valued_history', 'search_aborted_by_definitive_failure', 'slice_reused_for_second_search', 'change_at_last_plus_1', 'change_at_head', 'adjacent_changes', 'step_exceeds_range', 'no_change_in_range', 'fault_during_search',
+EXPECTED_PROBES = ['tallies_reset_at_stop_block', 'voting_power_sent_as_string', 'two_searches_interleaved', 'coarse_equality', 'chain_extended_between_two_searches', 'none_valued_history', 'search_aborted_by_definitive_failure', 'slice_reused_for_second_search', 'change_at_last_plus_1', 'change_at_head', 'adjacent_changes', 'step_exceeds_range', 'no_change_in_range', 'fault_during_search',
                    'chain_grew_during_search']
 
 PKH = 'tz1VSUr8wwNhLAzempoch5d6hLRiTh8Cjcjb'
@@ -127,6 +128,14 @@ def gen(seed, tier):
     }
     if kind in ('api:ballots', 'api:upvotes') and rng.random() < 0.2:
         scn_out['interleave'] = True
+    if kind.split(':')[1] in ('ballots', 'upvotes', 'proposals') and rng.random() < 0.35:
+        # current nodes report voting power as int64 numbers sent as strings (mutez-scale or small)
+        scn_out['power_as_string'] = rng.choice([1, 1, 1_000_000, 4_000_000_000])
+    if kind in ('api:ballots', 'api:upvotes') and slice_mode == 'closed' and rng.random() < 0.3:
+        # the stop block of the slice (one level past the searched range) closes the voting period: the tallies fall back to
+        # what they were at the start block.  The searched range (last, head] itself never returns to an earlier value.
+        scn_out['reset_at_stop'] = True
+        scn_out['outside'] = []
     if scn_out['slice_mode'] == 'open' and rng.random() < 0.6:
         # the same open slice object is searched, the chain then moves on (new votes included), and it is searched again
         scn_out['presearch'] = True
@@ -174,6 +183,16 @@ def build_chain(node, scn, S=None, levels=None, changes=None):
     changes = (set(scn['changes']) | set(scn['outside'])) if changes is None else set(changes)
     levels = range(1, scn['H'] + 1) if levels is None else levels
     hist, expected_ops, ballots, rolls, kt = S['hist'], S['expected_ops'], S['ballots'], S['rolls'], S['kt']
+    unit = scn.get('power_as_string')
+    fmt = (lambda v: str(v * unit)) if unit else (lambda v: v)
+    served = S.setdefault('served', {})
+    if unit and 0 not in served:
+        if what == 'ballots':
+            node.tracked['ballots'] = {k: fmt(v) for k, v in ballots.items()}
+            S['hist'][0] = dict(node.tracked['ballots'])
+        elif what == 'upvotes':
+            S['hist'][0] = fmt(0)
+    served.setdefault(0, copy.deepcopy(node.tracked.get('ballots' if what == 'ballots' else 'proposals')))
     for lvl in levels:
         if lvl in changes:
             if what in ('counter', 'info'):
@@ -189,7 +208,7 @@ def build_chain(node, scn, S=None, levels=None, changes=None):
                     op = _vote_op('ballot', i, VOTERS[(lvl + i) % len(VOTERS)], lvl)
                     ballots[op['contents'][0]['ballot']] += 100 + i
                     ops.append(op)
-                node.tracked['ballots'] = dict(ballots)
+                node.tracked['ballots'] = {k: fmt(v) for k, v in ballots.items()}
                 node.vote_ops_next.extend(ops)
                 expected_ops[lvl] = [o['hash'] for o in ops]
             elif what in ('proposals', 'upvotes'):
@@ -199,7 +218,7 @@ def build_chain(node, scn, S=None, levels=None, changes=None):
                     for p in op['contents'][0]['proposals']:
                         rolls[p] += 50 + i
                     ops.append(op)
-                node.tracked['proposals'] = [[p, r] for p, r in rolls.items() if r]
+                node.tracked['proposals'] = [[p, fmt(r)] for p, r in rolls.items() if r]
                 node.vote_ops_next.extend(ops)
                 expected_ops[lvl] = [o['hash'] for o in ops]
             elif what == 'origination':
@@ -218,7 +237,7 @@ def build_chain(node, scn, S=None, levels=None, changes=None):
                 op = _vote_op('other', S['noise_i'], VOTERS[lvl % len(VOTERS)], lvl)
                 if what == 'upvotes':
                     rolls[PROP_B] += 7
-                    node.tracked['proposals'] = [[p, r] for p, r in rolls.items() if r]
+                    node.tracked['proposals'] = [[p, fmt(r)] for p, r in rolls.items() if r]
                 node.vote_ops_next.append(op)
             elif what == 'origination':
                 other = oc.b58enc('KT1', oc.blake2b(b'other%d' % lvl, 20))
@@ -231,17 +250,23 @@ def build_chain(node, scn, S=None, levels=None, changes=None):
         if what == 'info' and (lvl * 5 + scn['H']) % 3 == 0:
             # the balance moves at levels of its own: a caller who follows the counter only must not be told about them
             node.tracked['bal:' + PKH] = 1_000_000 + lvl
+        if scn.get('reset_at_stop') and lvl == scn['head'] + 1 and what in ('ballots', 'upvotes'):
+            # end of the voting period at the stop block: the node serves again what it served at the start block
+            node.tracked['ballots' if what == 'ballots' else 'proposals'] = copy.deepcopy(served[scn['last']])
+            S['reset_done'] = True
         node.bake()
+        if what in ('ballots', 'upvotes', 'proposals'):
+            served[lvl] = copy.deepcopy(node.tracked.get('ballots' if what == 'ballots' else 'proposals'))
         if what in ('counter', 'info'):
             hist[lvl] = str(S['ctr'])
         elif what == 'kt':
             hist[lvl] = None if S['ktctr'] is None else str(S['ktctr'])
         elif what == 'ballots':
-            hist[lvl] = dict(ballots)
+            hist[lvl] = {k: fmt(v) for k, v in ballots.items()}
         elif what == 'proposals':
-            hist[lvl] = [[p, r] for p, r in rolls.items() if r]
+            hist[lvl] = [[p, fmt(r)] for p, r in rolls.items() if r]
         elif what == 'upvotes':
-            hist[lvl] = rolls[PROP_A]
+            hist[lvl] = fmt(rolls[PROP_A])
         elif what == 'origination':
             hist[lvl] = '0' if ('kt:' + kt) in node.tracked else None
     return S
@@ -407,6 +432,10 @@ def execute(scn, want_log=False):
         bump('none_valued_history')
     if what == 'info':
         bump('coarse_equality')
+    if scn.get('reset_at_stop') and S.get('reset_done') and scn['changes']:
+        bump('tallies_reset_at_stop_block')
+    if scn.get('power_as_string') and scn['changes']:
+        bump('voting_power_sent_as_string')
     if sim.stats.get('fault:transient', 0) + sim.stats.get('fault:preval', 0) + sim.stats.get('fault:latency', 0):
         bump('fault_during_search')
     if node.head['level'] > level0:
